@@ -29,7 +29,7 @@ func init() {
 		Assumptions: []string{"allocation is metered process-wide between injection and quiescence (includes harness and pgsim overhead, hence the generous constant)"},
 		Real:        []string{"p2p validators/handlers/runHandleMessages", "p2pmsg.Unmarshal/Validate", "epochkghandler handlers", "gnosis / shutterservice handlers + middleware", "primev.PrimevCommitmentHandler", "snapshot.DecryptionTriggerHandler", "gnosisaccessnode.DecryptionKeysHandler", "KeyShareHandler"},
 		Stub:        []string{"libp2p (simnet)", "PostgreSQL (pgsim)", "DKG (trusted dealer)"},
-		QuickRuns:   300, ThoroughRuns: 30000, QuickMinimize: 60, ThoroughMinimize: 300,
+		QuickRuns:   1200, ThoroughRuns: 30000, QuickMinimize: 60, ThoroughMinimize: 300,
 	})
 }
 
